@@ -57,6 +57,12 @@ def cases(tier, seed):
                     if thorough or aad in (0, 13, 16, 129) or n in (0, 1, 16):
                         C.append(("gcm-stream", "gcm seed=%d klen=%d aad=%d al=%d inplace=%d dir=%s %d %d %d" % (rnd.randrange(50), klen, aad, rnd.choice([0, 1, 5]), rnd.randrange(2),
                                  rnd.choice(["enc", "dec"]), f, n, rnd.randrange(0, 40))))
+    # a context that has already protected a message (tag fetched with 16 / 12 / 8 / 4 bytes) is readied for the next one
+    for reuse in (16, 12, 8, 4):
+        for klen in (16, 32):
+            for n in (0, 1, 15, 16, 17, 40):
+                C.append(("gcm-reuse", "gcm seed=%d klen=%d aad=%d al=0 inplace=%d dir=%s reuse=%d %d %d" % (rnd.randrange(50), klen, rnd.choice([0, 13]), rnd.randrange(2),
+                         rnd.choice(["enc", "dec"]), reuse, n, rnd.randrange(0, 20))))
     # every single-bit modification of a sealed record, both decrypt interfaces, full and truncated tags
     for pt, aad in ((0, 0), (1, 13), (16, 13), (33, 5)) + (((100, 21),) if thorough else ()):
         for api in (1, 2):
